@@ -789,7 +789,7 @@ package raft
 //@ ensures result ==> r.log.termAt(r.log.committed) == r.term || r.term == 0
 
 // R6: heartbeats that carry a ReadIndex hint go to voting members only
-//@ func (r *raft) broadcastHeartbeatMessageWithHint [C06 C18]
+//@ func (r *raft) broadcastHeartbeatMessageWithHint [C06 C18 C02]
 //@ noframe
 //@ requires r.remotes != nil && r.witnesses != nil && r.log != nil
 //@ modifies r.msgs, elems(r.msgs[len(r.msgs):])
@@ -799,6 +799,11 @@ package raft
 //@ loop 1 invariant len(r.msgs) >= old(len(r.msgs)) && (forall i int :: old(len(r.msgs)) <= i && i < len(r.msgs) ==>
 //@     (r.msgs[i].To in r.remotes || r.msgs[i].To in r.witnesses) && r.msgs[i].Type == pb.Heartbeat && r.msgs[i].Hint == ctx.Low && r.msgs[i].HintHigh == ctx.High)
 //@ loop 2 invariant ctx.Low == 0 && ctx.High == 0 && len(r.msgs) >= old(len(r.msgs))
+// C02 (a follower commits only what it is known to hold): the commit index a heartbeat carries to a member
+// is bounded by the leader's commit index AND by the index that member has acknowledged (its match), never
+// by what was merely sent to it
+//@ loop 1 step id != r.replicaID ==> r.msgs[len(r.msgs) - 1].To == id && r.msgs[len(r.msgs) - 1].Commit <= rm.match && r.msgs[len(r.msgs) - 1].Commit <= r.log.committed [C02]
+//@ loop 2 step r.msgs[len(r.msgs) - 1].To == id && r.msgs[len(r.msgs) - 1].Commit <= rm.match && r.msgs[len(r.msgs) - 1].Commit <= r.log.committed [C02]
 
 // R5: witnesses only ever get entry metadata (no user payload) except for config changes
 //@ func makeMetadataEntries [C18]
